@@ -305,6 +305,24 @@ where
                         .ok(); // The caller may have dropped its future meanwhile.
                 }
             }
+            RxPacket::Pubrec(pubrec) => {
+                // A failing PUBREC ends the QoS 2 exchange, so its send quota slot is free again.
+                if pubrec.reason as u8 >= 0x80
+                    && connection.send_quota != connection.remote_receive_maximum
+                {
+                    connection.send_quota += 1;
+                }
+
+                let rx_packet = RxPacket::Pubrec(pubrec);
+                let action_id = utils::rx_action_id(&rx_packet);
+
+                if let Some((_, sender)) =
+                    utils::linear_search_by_key(&session.awaiting_ack, action_id)
+                        .and_then(|pos| session.awaiting_ack.remove(pos))
+                {
+                    sender.send(Ok(rx_packet)).ok(); // The caller may have dropped its future meanwhile.
+                }
+            }
             RxPacket::Pubrel(pubrel) => {
                 let packet_id = pubrel.packet_identifier;
                 Self::ack::<PubcompReason>(tx, packet_id).await?
